@@ -170,7 +170,12 @@ def source_tie(ctx: Ctx):
     if a.returncode != 0 and not failed:
         failed.append("srctie:lean:" + txt[-800:])
     st = None
-    if not failed:
+    if not failed and any(v[2] for v in res.values()):
+        # a function outside this property's list does not translate: edits inside it cannot be told apart, the
+        # self-test is not meaningful on this tree (the properties that list the function report the broken tie)
+        st = dict(skipped="not every translated function of this tree translates: "
+                          + ", ".join(k for k, v in res.items() if v[2]))
+    elif not failed:
         # is the translator blind? (only meaningful on a tree it can translate): every edit of a fixed list, applied
         # alone to a scratch copy of the files, must change what it derives
         a_, d_, blind = srcgen.selftest(repo)
@@ -251,6 +256,21 @@ def known_findings(prop=None):
                 if prop is None or j.get("property") == prop:
                     out.append(j)
     return out
+
+
+def safe_probe(fn, *a, pair=False, **k):
+    """run a probe (a seeded program that checks the Spec directly on the implementation); an exception that escapes
+    from the library while the probe's scenario runs is a failing observation of that scenario — reported with the
+    probe's name and arguments as the input — not a crash of the check"""
+    import traceback
+    try:
+        return fn(*a, **k)
+    except Exception as e:  # noqa: BLE001
+        tb = traceback.extract_tb(e.__traceback__)
+        where = next((f"{os.path.basename(fr.filename)}:{fr.lineno}" for fr in reversed(tb) if "statemachine" in fr.filename), "")
+        msg = (f"{fn.__name__}{a!r}: the scenario made the library raise {type(e).__name__}: {str(e)[:200]}"
+               + (f" [{where}]" if where else ""))
+        return (1, [msg]) if pair else [msg]
 
 
 def run_py_corpus(ctx):
